@@ -499,6 +499,17 @@ def build_pair_query(db, prog, name, pairing=None, extra_cuts=None, propid='C01'
                 continue
             cast = '' if ca == cb else '(%s)' % cb
             al = aliases.get(key, [])
+            off_ = hooks.get('offset', {}).get(key)
+            if off_ is not None:
+                # a loop counter that runs 0..m-1 in the port and 1..m in the reference: related by  r == x + off
+                if ca != 'int' or cb != 'int' or al:
+                    raise Unsupported('offset relation on a non-int variable ' + key)
+                both = '  { int v = nondet_int(); __CPROVER_assume(v > -1000000 && v < 1000000); x_%s = v; r_%s = v + (%d); }' % (a[1], b[1], off_)
+                if a[0] == 'param' or b[0] == 'param':
+                    setup_entry.append(both)
+                setup_cut.append(both)
+                checks.append((key, 'x_%s + (%d) == r_%s' % (a[1], off_, b[1])))
+                continue
             both = '  { %s v = nondet_%s(); x_%s = v; r_%s = %sv; %s}' % (ca, ca, a[1], b[1], cast, ''.join('x_%s = v; ' % n_ for n_, t_ in al))
             if al:
                 G.append('static %s old_%s%s;' % (ca, a[1], ''.join(', old_%s' % n_ for n_, t_ in al)))
